@@ -34,8 +34,12 @@ type osFS struct{}
 func (osFS) Remove(path string) error {
 	return robustio.RemoveAll(path)
 }
+
+// RemoveDir removes path only if it is an empty directory (rmdir semantics,
+// like the sftp VFS): the clean-up of a directory that was listed as empty
+// races with receives into it and must never take their blobs along.
 func (osFS) RemoveDir(path string) error {
-	return robustio.RemoveAll(path)
+	return os.Remove(path)
 }
 
 func (osFS) Rename(oldname, newname string) error {
